@@ -92,6 +92,10 @@ theorem parseSignedDigits_digits (neg : Bool) (ds : List Char) (hne : ds ≠ [])
         exact absurd this hc.2.2.1
       · simp [hall]
 
+theorem exp_range_ok (n : Nat) (h : (n : Int) ≤ 2147483648) :
+    ¬ ((0 : Int) - (n : Int) < Dec.minInt32 ∨ (0 : Int) - (n : Int) > Dec.maxInt32) := by
+  simp only [Dec.minInt32, Dec.maxInt32]; omega
+
 /-- a printed number `-?ip(.fp)?` parses to `±digits(ip ++ fp) · 10^(-|fp|)` -/
 theorem parseDec_printed (neg : Bool) (ip fp : List Char) (hip : allDigits ip) (hne : ip ≠ [])
     (hfp : allDigits fp) (hlen : (fp.length : Int) ≤ 2147483648) :
@@ -130,19 +134,17 @@ theorem parseDec_printed (neg : Bool) (ip fp : List Char) (hip : allDigits ip) (
     rw [count_dot_no_dot _ hnodot1, if_neg (by omega), splitDot_no_dot _ hnodot1]
     simp only
     rw [parseSignedDigits_digits neg ip hne hip]
-    simp only [Dec.minInt32, Dec.maxInt32]
-    split
-    · rename_i h; simp at h
-    · simp
+    dsimp only
+    rw [if_neg (exp_range_ok _ hlen)]
+    simp
   · simp only [hf, if_false]
     have hcount : (signChars neg ++ ip ++ '.' :: fp).count '.' = 1 := by
       rw [List.count_append, count_dot_no_dot _ hnodot1, List.count_cons_self, count_dot_no_dot _ hnodotfp]
     rw [hcount, if_neg (by omega), splitDot_at _ _ hnodot1]
     simp only
     rw [List.append_assoc, parseSignedDigits_digits neg (ip ++ fp) hne' hds]
-    simp only [Dec.minInt32, Dec.maxInt32]
-    split
-    · rename_i h; omega
-    · simp
+    dsimp only
+    rw [if_neg (exp_range_ok _ hlen)]
+    simp
 
 end DSV.LLO
